@@ -33,10 +33,14 @@ UNIT = {
     'name': 'buildkey',
     'source': 'lib/BuildSystem/BuildKey.cpp',
     'dumps': ['BuildKey'],
-    'types': {'StringRef': 'strref', 'KeyType': 'keyt', 'core::KeyType': 'keyt'},
+    'types': {'StringRef': 'strref', 'KeyType': 'keyt', 'core::KeyType': 'keyt', 'std::string': 'keyt', 'string': 'keyt', 'basic_string<char>': 'keyt'},
     'by_value': ['strref'], 'by_pointer': ['keyt'],
     'calls': {'m:@keyt::data': 'keyt_data', 'm:@keyt::size': 'keyt_size', 'fn:memcpy': 'verif_memcpy4',
-              'c:StringRef(const char *, size_t)': 'strref_make', 'c:StringRef(const char *)': 'strref_cstr_any'},
+              'c:StringRef(const char *, size_t)': 'strref_make', 'c:StringRef(const char *)': 'strref_cstr_any',
+              'm:@keyt::reserve': 'keyt_reserve', 'm:@keyt::push_back': ('keyt_push_back', 'v'), 'm:@keyt::append': 'keyt_append', 'o:=:@keyt': 'keyt_assign($o, $0)',
+              'm:@strref::begin': '($o->ptr)', 'm:@strref::end': '($o->ptr + $o->len)', 'm:@strref::size': '($o->len)'},
+    'call_patterns': [(r'c:(basic_string<char>|string|std::string|KeyType)\(const (std::)?(basic_string<char>|string|KeyType).*&\)', 'keyt_copy'), (r'c:(basic_string<char>|string|std::string|KeyType)\(\)', 'keyt_new'), (r'c:(basic_string<char>|string|std::string|KeyType)/0', 'keyt_new'),
+                      (r'c:(basic_string<char>|string|std::string|KeyType)\(const char \*.*\)', ('keyt_cstr_any', 'v')), (r'o:=:(std::)?(basic_string<char>|string)', 'keyt_assign($o, $0)')],
     'prelude': '#include "models/base.h"\n#include "models/buildkey.h"\n',
     'functions': dict({
         'BuildKey::kindForIdentifier': {
@@ -53,6 +57,13 @@ UNIT = {
             'requires': ['__CPROVER_is_fresh(self, sizeof(*self))', 'g_len >= 1 && g_len <= 4096', '__CPROVER_is_fresh(g_buf, g_len)',
                          '__CPROVER_pointer_in_range_dfcc(g_buf, self->key.ptr, g_buf) && self->key.len == g_len'], 'assigns': [],
             'ensures': [('P:C15', 'g_buf[0] == %d ==> RESULT == %s%s' % (ord(t), K, k)) for k, t in TAGS.items()]},
+        # BuildKey(kind code, name): the key is the tag byte followed by ALL bytes of the name (its length taken from the StringRef, not from a terminator)
+        'BuildKey::BuildKey': {
+            'nparams': 2, 'cname': 'BuildKey_ctor_tag_name',
+            'requires': ['__CPROVER_is_fresh(self, sizeof(*self))', 'str.len <= ((size_t)1 << 32)', '__CPROVER_is_fresh(str.ptr, str.len + 1)', 'g_pieces == 0'],
+            'assigns': ['self->key', 'g_pieces', 'g_piece_char', 'g_piece_char_pos', 'g_piece_ptr', 'g_piece_len', 'g_piece_pos'],
+            'ensures': [('P:C15', 'self->key.ptr == &g_built_marker && self->key.len == 1 + str.len'),
+                        ('P:C15', 'g_pieces == 2 && g_piece_char == kindCode && g_piece_char_pos == 0 && g_piece_ptr == str.ptr && g_piece_len == str.len && g_piece_pos == 1')]},
         'BuildKey::getCustomTaskName': name_acc(), 'BuildKey::getDirectoryTreeSignaturePath': name_acc(), 'BuildKey::getFilteredDirectoryPath': name_acc(),
         'BuildKey::getCustomTaskData': data_acc(), 'BuildKey::getContentExclusionPatterns': data_acc(),
         'BuildKey::getCommandName': simple_acc(), 'BuildKey::getNodeName': simple_acc(), 'BuildKey::getDirectoryPath': simple_acc(),
